@@ -70,11 +70,9 @@ Fixpoint dict_set (q : pid) (c : conn) (l : list (pid * conn)) : list (pid * con
   | (q', c') :: t => if pid_eqb q q' then (q, c) :: t else (q', c') :: dict_set q c t
   end.
 
-Fixpoint dict_pop (q : pid) (l : list (pid * conn)) : list (pid * conn) :=
-  match l with
-  | [] => []
-  | (q', c') :: t => if pid_eqb q q' then t else (q', c') :: dict_pop q t
-  end.
+(* d.pop(q): keys are unique, so removing the key removes every entry carrying it *)
+Definition dict_pop (q : pid) (l : list (pid * conn)) : list (pid * conn) :=
+  filter (fun e => negb (pid_eqb q (fst e))) l.
 
 Definition mem (q : pid) (l : list pid) : bool := existsb (pid_eqb q) l.
 Definition set_add (q : pid) (l : list pid) : list pid := if mem q l then l else l ++ [q].
